@@ -107,7 +107,12 @@ def get_variant_information(variant_table: VariantTable, sample: str):
 
 
 def attempt_add_phase_information(
-    alignment, read_to_haplotype, bxtag_to_haplotype, linked_read_cutoff, ignore_linked_read
+    alignment,
+    read_to_haplotype,
+    bxtag_to_haplotype,
+    linked_read_cutoff,
+    ignore_linked_read,
+    alignment_sample=None,
 ):
     is_tagged = 0
     haplotype_name = "none"
@@ -129,7 +134,11 @@ def attempt_add_phase_information(
             else:  # alignment has BX tag
                 read_clouds = bxtag_to_haplotype[tag]
 
-            for reference_start, haplotype, phaseset in read_clouds:
+            for sample, reference_start, haplotype, phaseset in read_clouds:
+                if alignment_sample is not None and sample != alignment_sample:
+                    # barcodes are not unique across libraries: a read cloud of another
+                    # sample says nothing about this read
+                    continue
                 if abs(reference_start - alignment.reference_start) <= linked_read_cutoff:
                     haplotype_name = f"H{haplotype + 1}"
                     alignment.set_tag("HP", haplotype + 1)
@@ -240,7 +249,9 @@ def prepare_haplotag_information(
                 continue
 
             if not ignore_linked_read and read.has_BX_tag():
-                BX_tag_to_haplotype[read.BX_tag].append((read.reference_start, first_ht, phaseset))
+                BX_tag_to_haplotype[read.BX_tag].append(
+                    (sample, read.reference_start, first_ht, phaseset)
+                )
 
             for r in reads_to_consider:
                 read_to_haplotype[r.name] = (first_ht, quality, phaseset)
@@ -530,6 +541,13 @@ def run_haplotag(
         # This checks also sample compatibility with VCF
         shared_samples = compute_shared_samples(bam_reader, ignore_read_groups, use_vcf_samples)
 
+        # sample of each read group; with --ignore-read-groups reads belong to no particular sample
+        read_group_to_sample = None
+        if not ignore_read_groups:
+            read_group_to_sample = {
+                rg["ID"]: rg.get("SM", "") for rg in bam_reader.header.get("RG", []) if "ID" in rg
+            }
+
         # Check if user has specified a subset of regions per chromosome
         user_regions = normalize_user_regions(regions, bam_reader.references)
 
@@ -634,12 +652,16 @@ def run_haplotag(
                         alignment.set_tag("PC", value=None)
                         alignment.set_tag("PS", value=None)
                     else:
+                        alignment_sample = None
+                        if read_group_to_sample is not None and alignment.has_tag("RG"):
+                            alignment_sample = read_group_to_sample.get(alignment.get_tag("RG"))
                         (is_tagged, haplotype_name, phaseset) = attempt_add_phase_information(
                             alignment,
                             read_to_haplotype,
                             BX_tag_to_haplotype,
                             linked_read_distance_cutoff,
                             ignore_linked_read,
+                            alignment_sample,
                         )
                         n_tagged += is_tagged
 
